@@ -5,6 +5,7 @@ import (
 	"context"
 	"fmt"
 	"io"
+	"reflect"
 	"strconv"
 	"strings"
 
@@ -208,6 +209,16 @@ func (p *Parser) parseParallelWith(first ast.Statement) *ast.ParallelWithQuery {
 }
 
 func (p *Parser) parseStatement() ast.Statement {
+	stmt := p.parseStatementByKeyword()
+	// The statement parsers return concrete pointer types; a nil pointer from one
+	// of them must become a nil Statement, not an interface holding a nil pointer
+	if v := reflect.ValueOf(stmt); stmt == nil || (v.Kind() == reflect.Ptr && v.IsNil()) {
+		return nil
+	}
+	return stmt
+}
+
+func (p *Parser) parseStatementByKeyword() ast.Statement {
 	switch p.current.Token {
 	case token.SELECT:
 		return p.parseSelectWithUnion()
